@@ -3053,8 +3053,8 @@ def SIR_heterogeneous_pairwise(Sk0, Ik0, Rk0, SkSl0, SkIl0, tau, gamma,
     S = Sk.sum(axis=0)
     Ik = X.T[kcount:2*kcount]
     I = Ik.sum(axis=0)
-    SkIl = X.T[2*kcount:2*kcount+kcount**2]
-    SkSl = X.T[2*kcount+kcount**2: 2*kcount+2*kcount**2]
+    SkSl = X.T[2*kcount:2*kcount+kcount**2]
+    SkIl = X.T[2*kcount+kcount**2: 2*kcount+2*kcount**2]
 
     Rk = Nk[:,None] - Sk - Ik
     R = Rk.sum(axis=0)
@@ -3416,7 +3416,7 @@ def SIR_compact_pairwise(Sk0, I0, R0, SS0, SI0, tau, gamma, tmin=0, tmax=100,
     X0 = np.concatenate((Sk0, [SS0, SI0, R0]), axis=0)
     X = integrate.odeint(_dSIR_compact_pairwise_, X0, times, 
                             args = (N, tau, gamma))
-    SI, SS, R = X.T[-3:]
+    SS, SI, R = X.T[-3:]
     Sk = X.T[:-3]
     S = Sk.sum(axis=0)
     I = N - R - S
